@@ -672,7 +672,16 @@ func (x *Exec) bytesEq(st *State, a, b Val) Term {
 }
 
 func (x *Exec) declBytesEq() {
-	x.sc.declare("f:bytesEq", `(define-fun bytesEq ((a (Array Int Int)) (ao Int) (al Int) (b (Array Int Int)) (bo Int) (bl Int)) Bool (and (= al bl) (forall ((i Int)) (=> (and (<= 0 i) (< i al)) (= (select a (+ ao i)) (select b (+ bo i)))))))`)
+	if x.sc.declared["f:bseqOf"] {
+		return
+	}
+	// content of a byte slice as a value: bytesEq is equality of contents
+	x.sc.declFun("bseqOf", []string{"(Array Int Int)", "Int", "Int"}, "BSeq")
+	x.sc.declare("f:bytesEq", `(define-fun bytesEq ((a (Array Int Int)) (ao Int) (al Int) (b (Array Int Int)) (bo Int) (bl Int)) Bool (= (bseqOf a ao al) (bseqOf b bo bl)))`)
+	// extensionality: equal contents iff same length and same bytes
+	x.sc.declare("ax:bseqOf", `(assert (forall ((a (Array Int Int)) (ao Int) (al Int) (b (Array Int Int)) (bo Int) (bl Int)) (! (= (= (bseqOf a ao al) (bseqOf b bo bl)) (and (= (imax al 0) (imax bl 0)) (forall ((i Int)) (=> (and (<= 0 i) (< i al)) (= (select a (+ ao i)) (select b (+ bo i))))))) :pattern ((bseqOf a ao al) (bseqOf b bo bl)))))`)
+	x.sc.declFun("bseqLen", []string{"BSeq"}, "Int")
+	x.sc.declare("ax:bseqLen", `(assert (forall ((a (Array Int Int)) (ao Int) (al Int)) (! (= (bseqLen (bseqOf a ao al)) (imax al 0)) :pattern ((bseqOf a ao al)))))`)
 }
 
 // bseq abstracts the contents of a byte slice as a value of sort BSeq (extensional).
@@ -680,10 +689,6 @@ func (x *Exec) bseq(st *State, a Val) Term {
 	key, srt := x.elemKey(types.Typ[types.Uint8])
 	h := x.heapGet(st, key, srt)
 	x.declBytesEq()
-	if !x.sc.declared["f:bseqOf"] {
-		x.sc.declFun("bseqOf", []string{"(Array Int Int)", "Int", "Int"}, "BSeq")
-		x.sc.assert(`(forall ((a (Array Int Int)) (ao Int) (al Int) (b (Array Int Int)) (bo Int) (bl Int)) (! (= (= (bseqOf a ao al) (bseqOf b bo bl)) (bytesEq a ao al b bo bl)) :pattern ((bseqOf a ao al) (bseqOf b bo bl))))`)
-	}
 	return app("bseqOf", sel(h, app("s_reg", a.S)), app("s_off", a.S), app("s_len", a.S))
 }
 
